@@ -401,6 +401,8 @@ def check_C12(ctx):
     for d in cd:
         for v in cases(d):
             addrs += [b'u@' + v, b'u@' + v + b'.']
+    # names around the 253-255 limits with a dot / a listed or reserved ending exactly on the limit: every mode must see the same name
+    addrs += [b'u@' + d for d in gens.long_name_shapes()]
     addrs = sorted(set(addrs + src_addrs(ctx)))
     orc = vlib.idn_oracle(gens.domains_of(addrs))
     elines = gens.e_lines(addrs, orc)
@@ -550,6 +552,12 @@ def check_C07(ctx):
     for r in [b'test', b'example', b'invalid', b'localhost', b'onion', b'com', b'org', b'museum', b'de', b'xn--p1ai']:
         doms += [b'b.' + r + b'-1', b'b.' + r + b'-x', b'b.x-' + r, b'a.b.' + r + b'-' + r, b'b.' + r + b'--a']
     doms += [a[a.rfind(b'@') + 1:] for a in src_addrs(ctx) if a.startswith(b'a@') and b'[' not in a and a.count(b'@') == 1]
+    # listed TLDs behind second-level labels that are near misses of the reserved words (exabyte.net is generic, not special), and the near
+    # misses of the reserved names themselves: the class must come from the table row of the last label
+    near7 = [d for d in gens.reserved_suffixes() if b'@' not in d and b'..' not in d]
+    doms += sub(ctx, near7, 2) + [b'x.' + d for d in sub(ctx, near7, 3)]
+    for w in (b'exabyte', b'examine', b'exampla', b'exaaaaa', b'EXAmplx', b'exam', b'examples', b'xxample', b'exxmple', b'testing', b'invalix', b'onionx'):
+        doms += [w + b'.' + t for t in (b'com', b'net', b'org', b'de', b'museum', b'arpa')] + [b'a.' + w + b'.com']
     orc = vlib.idn_oracle(doms)
     el = gens.e_lines([b'u@' + d for d in doms], orc, tlds=(1,))
     corr(ctx, 'email(tld on)', el, first_fields(1), nontrivial=nontriv_addr, describe=desc, level=lvl_email(keep=(-26, -23), fields=()))
@@ -638,6 +646,8 @@ def check_C08(ctx):
     # near misses of the reserved names (cut, stretched, glued, one edit away), bare and behind one label: unlisted TLD / not fully qualified whatever the mask
     near = [d for d in gens.reserved_suffixes() if b'@' not in d]
     addrs += [b'a@' + p + d for d in sub(ctx, near, 2) for p in (b'', b'x.')]
+    # reserved and listed endings of names that sit exactly on the 253 / 254 (root dot) limits
+    addrs += [b'a@' + d for d in gens.long_name_shapes() if d.rstrip(b'.').endswith((b'test', b'example.com', b'example.net', b'example.org', b'invalid', b'localhost', b'onion', b'arpa', b'museum'))]
     orc = vlib.idn_oracle(gens.domains_of(addrs))
     masks = sorted(set([0, 2047, 760, -1] + [1 << k for k in range(12)] + [2047 ^ (1 << k) for k in range(11)]))
     al = ['A i r%d t%d m%d s %s x f' % (m, t, mk, gens.enc_e(a, orc)) for a in addrs for m in range(4) for t in (0, 1) for mk in masks]
@@ -836,6 +846,11 @@ def check_C13(ctx):
     rel = [(a, a[:k]) for a in names for k in range(2, len(a)) if a[:k] in nset]
     rel = rel[::max(1, len(rel) // 60)][:60] + [(names[i], names[i + 1]) for i in range(0, len(names) - 1, max(1, len(names) // 20))]
     pool2 = [b'a@b.com', b'a@b.blog', b'a@b.bl', b'a@test', b'a@b.zzz', b'a@[1.2.3.4]', b'a@[IPv6:::1]', b'bad', b'a..b@c.de', 'я@почта.рф'.encode(), b'a@xn--a', b'a@b', b'"q"@b.org', b'a@B.COM', b'a@b.adac', b'a@example.com']
+    # one address of every class the table of this tree holds (a class with a single row, such as infrastructure = arpa, is in no other pool)
+    byclass13 = {}
+    for nme, l, t in ctx.snap.dump()['tld']:
+        byclass13.setdefault(t, bytes.fromhex(nme))
+    pool2 += [b'a@b.' + v for v in byclass13.values() if b'a@b.' + v not in pool2]
     seqs = [(b'a@b.' + x, b'a@b.' + y) for x, y in rel] + [(b'a@b.' + y, b'a@b.' + x) for x, y in rel] + [(x, y) for x in pool2 for y in pool2]
     orc2 = vlib.idn_oracle(gens.domains_of([a for p2 in seqs for a in p2]))
     for x, y in seqs:
@@ -1077,7 +1092,10 @@ def check_C19(ctx):
                     lines.append('U %d %s %d - %d' % (t, hx(d), c, buf))
     corr(ctx, 'single-call faults', lines, lambda ln, o: o, exhaustive=True, describe=desc, nontrivial=lambda ln, o: True,
          note='every libidn2 return code (+ unknown codes) x with/without an output buffer x 13 addresses (plain, IDN, A-labels, mapped, refused by the real library) x tld off/on, direct validator and is_utf8_domain')
-    nat = gens.e_lines(pool, orc, modes=(3,), tlds=(0, 1)) + facade_lines(pool, orc, modes=(3,), tlds=(0, 1))
+    _, nums19 = gens.source_dictionary(ctx.snap.src)
+    longd = [b'u@' + d for d in sub(ctx, gens.long_idn_domains(nums19), 2)]
+    orc.update(vlib.idn_oracle(gens.domains_of(longd)))
+    nat = gens.e_lines(pool + longd, orc, modes=(3,), tlds=(0, 1)) + facade_lines(pool, orc, modes=(3,), tlds=(0, 1))
     corr(ctx, 'natural answers', nat, lambda ln, o: o, exhaustive=True, describe=desc, nontrivial=lambda ln, o: True, note='the same addresses with the answer the real libidn2 gives')
     # runs of 1..50 validations with a single fault at each position, and seeded multi-fault runs
     runs = []
@@ -1468,6 +1486,11 @@ def cli_files(rnd, n, big):
         files.append(b''.join(unit * k + b'\n' for k in range(1, top // len(unit) + 1)))
     files.append(b''.join(b'\xff' * k + b'\n' for k in range(top, 0, -1)))
     files.append(b'a@b.cc\n' + b''.join(b'\xff' * k + b'\r\n' for k in range(250, top, 7)) + b'\x01' * 321)
+    # the tool has its own copy of the UTF-8 decoder (bin/): the 3- and 4-octet candidates of the C03 cover, alone and inside an address
+    cands = [u for u in gens.utf8_candidates(False) if len(u) >= 3 and b'\n' not in u and 0 not in u]
+    if not big: cands = cands[::3] + [u for u in cands if u[0] in (0xe0, 0xed, 0xf0, 0xf4) and u[1] in (0x80, 0x8f, 0x90, 0x9f, 0xa0, 0xbf)]
+    files.append(b''.join(u + b'\n' for u in cands))
+    files.append(b''.join(b'a' + u + b'b@x.org\n' for u in cands))
     files += [b'', b'\n', b'\n\n\n', b' \n', b'a@b.com', b'a@b.com\r', b'a@b.com\r\r\n', b'#\n', b'#', b' ', b'\x00\n', b'a@b.com\n\n \n#c\n good@xn--p1ai.com \n']
     return files
 
